@@ -28,7 +28,7 @@ REQUIRED_STRATA = {"seq-exhaustive": 1000, "automaton-step": 100, "automaton-com
 
 LETTERS = [None, True, 1, 2.5, 1j, "a", b"a", date(2020, 1, 2), datetime(2020, 1, 2, 3, 4), [1], (1,), {"a": 1},
 	Decimal("1.5"), timedelta(days=1), V.Plain(1), V.MyInt(1)]
-EXTRA_LETTERS = [V.MyStr("s"), V.Color.RED, V.Other(1), V.Base(1), V.Sub(1), Decimal("2"), V.DecSub("3")]
+EXTRA_LETTERS = [V.Stamp(2020, 1, 2, 3, 4), V.Day(2020, 1, 2), V.MyStr("s"), V.Color.RED, V.Other(1), V.Base(1), V.Sub(1), Decimal("2"), V.DecSub("3")]
 
 
 def cls_name(v):
@@ -85,6 +85,15 @@ def run_seq(chk, spec):
 			f"infer/model-mismatch/exp={fmt(exp)}/got={fmt(got)}/{first_none}",
 			f"infer_dtype({values!r}) = {fmt(got)}, model says {fmt(exp)}")
 		return
+	# an instance of a subclass of a built-in kind is at least that kind: the result is never narrower than the join of the bases
+	if exp is None and got is not None and any(v is not None and M.is_sub(M.exact_kind(v)) for v in values):
+		bases = [k[1] if M.is_sub(k) else k for k in (M.exact_kind(v) for v in values if v is not None)]
+		bj = M.join_kinds(bases)
+		gk = got[0]
+		if not (_le(bj, gk) or (isinstance(gk, type) and bj is not object and issubclass(gk, bj))):
+			chk.fail("kinds join along bool<int<float<complex and date<datetime (a subclass instance counts at least as its built-in base)", f"infer/narrower-than-the-bases/exp>={bj.__name__}/got={fmt(got)}",
+				f"infer_dtype({values!r}) = {fmt(got)}, but the values are instances of {sorted({b.__name__ for b in bases})}")
+			return
 	# whatever was inferred must cover the values it was inferred from
 	for v in values:
 		if v is not None and got is not None and not M.belongs(v, got[0]):
@@ -320,6 +329,66 @@ def run_expr(chk, spec):
 				f"{spec['name']}: holds {short(vals, 160)} typed {fmt(got)}, rule says {fmt(exp)}")
 
 
+def _wider_than_needed(how, vals):
+	"""a vector whose declared dtype is wider than its current cells need (all reached through public operations)"""
+	v = Vector(list(vals))
+	if how == "to_object":
+		return v.to_object()
+	if how == "was-none":
+		v[0] = None
+		v[0] = vals[0]
+		return v
+	if how == "was-float":
+		v[0] = 2.5
+		v[0] = vals[0]
+		return v
+	if how == "slice-of-nullable":
+		return Vector(list(vals) + [None])[0:len(vals)]
+	return v
+
+
+def run_widen_only(chk, spec):
+	"""the promotion rule at the level of vectors: concatenation and assignment give the left / target dtype promoted with the incoming values - never narrower,
+	nullability never dropped, and only a None adds nullability"""
+	vals, how, op, news = list(spec["values"]), spec["how"], spec["op"], list(spec["new"])
+	b = call(_wider_than_needed, how, vals)
+	if not b.ok or b.value.schema() is None:
+		chk.skip("widen-only-build-refused")
+		return
+	v = b.value
+	s0 = sch(v.schema())
+	if op == "lshift-list":
+		o = call(lambda: v << list(news))
+	elif op == "lshift-vector":
+		o = call(lambda: v << Vector(list(news)))
+	elif op == "lshift-scalar":
+		o = call(lambda: v << news[0])
+	elif op == "setitem-slice-vector":
+		o = call(lambda: (v.__setitem__(slice(0, len(news)), Vector(list(news))), v)[1])
+	elif op == "setitem-slice-nullable-vector":
+		src = _wider_than_needed("was-none", news) if all(x is not None for x in news) else Vector(list(news))
+		o = call(lambda: (v.__setitem__(slice(0, len(news)), src), v)[1])
+	else:
+		o = call(lambda: (v.__setitem__(slice(0, len(news)), list(news)), v)[1])
+	chk.judged("result-typing", ("widen-only", how, op, fmt(s0), tuple(sorted({cls_name(x) for x in news}))))
+	if not o.ok:
+		chk.skip("widen-only-op-raised")
+		return
+	r = o.value
+	chk.observe(r, "widen-only")
+	s1 = sch(r.schema())
+	if s1 is None:
+		return
+	if not _le(s0[0], s1[0]):
+		chk.fail("promoting a dtype with values never narrows it", f"promote/narrows/vector-level/{op}/{how}", f"{how} vector {vals!r} typed {fmt(s0)}; {op} {news!r} gives {fmt(s1)}")
+		return
+	if s0[1] and not s1[1]:
+		chk.fail("promotion never drops nullability", f"promote/drops-nullability/vector-level/{op}/{how}", f"{how} vector {vals!r} typed {fmt(s0)}; {op} {news!r} gives {fmt(s1)}")
+		return
+	if not s0[1] and s1[1] and not any(x is None for x in news):
+		chk.fail("None only adds nullability (a value that is not None never does)", f"promote/nullable-without-none/vector-level/{op}", f"{how} vector {vals!r} typed {fmt(s0)}; {op} {news!r} (no None) gives {fmt(s1)}")
+
+
 def run_result(chk, spec):
 	"""results of arithmetic / joins / aggregates / CSV are typed by the rule applied to their own values"""
 	res = common.build_result(chk, spec)
@@ -341,7 +410,7 @@ def run_result(chk, spec):
 				f"{spec!r}: column {label} holds {short(vals, 200)} typed {fmt(got)}, rule says {fmt(exp)}")
 
 
-RUNNERS = {"expr": run_expr, "reject": run_reject, "dynclass": run_dynclass, "seq": run_seq, "vector": run_vector, "step": run_step, "commute": run_commute, "allnone": run_allnone, "result": run_result}
+RUNNERS = {"widen_only": run_widen_only, "expr": run_expr, "reject": run_reject, "dynclass": run_dynclass, "seq": run_seq, "vector": run_vector, "step": run_step, "commute": run_commute, "allnone": run_allnone, "result": run_result}
 
 
 # ------------------------------------------------------------------ driver
@@ -398,6 +467,17 @@ def run(chk):
 					chk.case("reject", {"values": okv[kind], "key": key, "new": [first, b]}, "reject")
 	for name in EXPRS:
 		chk.case("expr", {"name": name}, "result-typing-expr")
+	for vals, news_list in (([1, 2, 3], [[4], [4, 5], [None], [2.5]]), ([1.5, 2.5], [[3.5], [3], [None]]), (["a", "b"], [["c"], [None]]), ([True, False], [[True], [1]]), ([date(2020, 1, 1), date(2020, 1, 2)], [[date(2021, 1, 1)], [datetime(2020, 1, 1, 5)]])):
+		for how in ("plain", "to_object", "was-none", "was-float", "slice-of-nullable"):
+			if how == "was-float" and not isinstance(vals[0], int) or isinstance(vals[0], bool) and how == "was-float":
+				continue
+			for op in ("lshift-list", "lshift-vector", "lshift-scalar", "setitem-slice-list", "setitem-slice-vector", "setitem-slice-nullable-vector"):
+				for news in news_list:
+					chk.case("widen_only", {"values": vals, "how": how, "op": op, "new": news}, "widen-only")
+	# CSV columns in which a float equals an int seen earlier (2 and 2.0, 0 and -0.0, 1000 and 1e3): the kinds that occur decide, not the distinct values
+	for cells in (["2", "3", "2.0"], ["2.0", "3", "2"], ["0", "-0.0"], ["1000", "1e3", "5"], ["1", "1.", ""], ["7", "7.0", "7"], ["-0.0", "0"]):
+		for via in ("fileobj", "path"):
+			chk.case("result", {"op": "csv", "header": ["a"], "grid": [[c] for c in cells], "delimiter": ",", "has_header": True, "ncols": 1, "via": via, "pattern": "equal-values"}, "result-typing-csv-equal-values")
 	states = reachable_states()
 	chk.counters["automaton_states"] = len(states)
 	allv = LETTERS + EXTRA_LETTERS
